@@ -45,6 +45,27 @@ def run(ctx):
                       "stateOK=%s indexOK=%s reHead=%s reErr=%r wedged=%r" % (v.violated, line, ev.get("e"), ev.get("k"), ev.get("next"),
                       ev.get("lastBlock"), ev.get("reopen"), ev.get("head"), ev.get("stateOK"), ev.get("indexOK"), ev.get("reHead"),
                       ev.get("reErr"), ev.get("wedged")), ctx.save_replay("trace", [trace, meta]))
+    # large commits: a state change bigger than one database batch, every flush of import / import again / Stop failed once
+    t2 = os.path.join(ctx.work, "bigcommit.ndjson")
+    rc, out = vlib.go_test(ctx, "core", "TestVerifBigCommit$", env={"VERIF_OUT": t2}, files=["bigcommit_test.go"], timeout=6000)
+    m2 = re.search(r"VERIF-STAT events=(\d+) wedged=(\d+)", out)
+    if not m2 or (rc != 0 and m2.group(2) == "0"):
+        raise vlib.Infra("big commit driver failed (rc=%d):\n%s" % (rc, out[-3000:]))
+    v2 = vlib.validate_trace(ctx, FAM, "BigCommitTrace.tla", "BigCommitTrace.cfg", t2, name="trace_bigcommit", timeout=3000)
+    ev2 = vlib.read_ndjson(t2)
+    ctx.evaluations += len(ev2)
+    for e in ev2:
+        if e["e"] == "bigfail":
+            ctx.signatures.add(("bigfail", e["mode"], e["duringImport"], e["firstErr"], e["headAfterFirst"], e["reopenHead"], e["wedged"]))
+    ctx.notes["big_commit_flush_failures"] = sum(1 for e in ev2 if e["e"] == "bigfail")
+    if v2.accepted:
+        ctx.traces_validated += 1
+    else:
+        line = v2.line or 0
+        ev = ev2[line - 1] if 0 < line <= len(ev2) else {}
+        meta = os.path.join(ctx.work, "meta2.json")
+        json.dump({"seed": ctx.seed, "tier": ctx.tier, "line": line, "invariant": v2.violated, "part": "bigcommit"}, open(meta, "w"))
+        ctx.violation("BigCommitTrace invariant %s false at trace line %s: %s" % (v2.violated, line, json.dumps(ev)[:600]), ctx.save_replay("bigcommit", [t2, meta]))
     ctx.assumptions = ["a batch write is atomic (LevelDB semantics); a direct Put/Delete is one write",
                        "a failing write of the head-pointer batch ends in log.Crit/os.Exit = a crash before that write (covered by the prefix sweep)",
                        "fake PoW engine"]
